@@ -195,7 +195,10 @@ class MPRNLRI(Attribute, Family):
         # - 16-byte IPv6 nexthops are valid (could be global or link-local)
         # - With LLNH negotiated, 16-byte link-local (fe80::/10) is explicitly allowed
         # - Semantic interpretation of 16-byte NH depends on LLNH negotiation
-        if negotiated.nexthop:
+        # RFC 8950 section 4: the extended encoding is used for the families it was negotiated for. Applied to
+        # every family, a flow route (no next-hop at all) was refused on such a session and a VPLS or BGP-LS
+        # route looked up a (next-hop afi, safi) pair which does not exist and left with a KeyError
+        if negotiated.nexthop and any((afi, safi) == (nh[0], nh[1]) for nh in negotiated.nexthop):
             if len_nh in (16, 32, 24):
                 nh_afi = AFI.ipv6
             elif len_nh in (4, 12):
@@ -204,6 +207,8 @@ class MPRNLRI(Attribute, Family):
                 raise Notify(
                     3, 0, 'unsupported family {} {} with extended next-hop capability enabled'.format(afi, safi)
                 )
+            if (nh_afi, safi) not in Family.size:
+                raise Notify(3, 0, 'unsupported next-hop family {} for {} {}'.format(nh_afi, afi, safi))
             length, _ = Family.size[(nh_afi, safi)]
 
         if len_nh not in length:
